@@ -52,6 +52,10 @@ TINY = [
       "send_plan": [7, 0, 7, 0, 7, 0, 7, 0]}, "locks", 1),
     ({"msgs": ["v10", "get"], "cuts": ["boundaries"], "close": False, "lookahead": 1, "workers": 1,
       "send_plan": [40, 0, 1, 0, 40, 0]}, "attrs", 0),
+    ({"msgs": ["get", "get"], "cuts": [], "close": False, "lookahead": 1, "workers": 1,
+      "maint": True, "channel_timeout": -1000}, "locks", 1),
+    ({"msgs": ["get", "get"], "cuts": ["boundaries"], "close": False, "lookahead": 1, "workers": 1,
+      "shutdown": 1, "shutdown_timeout": 0.05}, "locks", 1),
 ]
 
 
